@@ -1154,10 +1154,15 @@ class DomainMapping(CanBehaveLikeAVariable[T], ABC):
         sources = sources or {}
         self._yield_when_false_ = yield_when_false
         self._child_._eval_parent_ = self
+        used_as_condition = self._is_used_as_condition_
         if self._id_ in sources:
+            if used_as_condition:
+                # Already bound (the same expression was used as a value earlier in the query), its truth still counts here.
+                self._is_false_ = bool(sources[self._id_].value) == self._invert_
+                if not (self._yield_when_false_ or not self._is_false_):
+                    return
             yield sources
             return
-        used_as_condition = self._is_used_as_condition_
         child_val = self._child_._evaluate__(sources, yield_when_false=self._yield_when_false_)
         for child_v in child_val:
             for v in self._apply_mapping_(child_v[self._child_._id_]):
